@@ -3,29 +3,11 @@
    no [..., x, ...] list); refuted in general (F20, F25: props/C04.v). *)
 From Coq Require Import PrimFloat.
 Require Import D42.Prelude D42.PyFloat D42.Value D42.Regex D42.Schema D42.Validate D42.Conforms
-               D42.FromNative D42.Substitute D42.Agree.
+               D42.FromNative D42.Substitute D42.Agree D42.ChoiceFree.
 Require Import D42P.ListLemmas D42P.ScalarSpec D42P.ValueLemmas D42P.ContainerSpec D42P.FromNativeSpec
                D42P.ValidateSpec D42P.ErrorsSpec D42P.SubstLemmas D42P.SubstNarrows D42P.SubstPins
                D42P.SubstIdem.
 Open Scope nat_scope.
-
-(* no choice point: every any has at most one alternative, no element list has the contains form *)
-Fixpoint choice_free (s : schema) {struct s} : bool :=
-  match s with
-  | SList es ty _ _ _ =>
-      match es with
-      | None => true
-      | Some l => negb (match classify l with FBody => true | _ => false end) &&
-                  forallb (fun x => x) (map (fun o => match o with Some e => choice_free e | None => true end) l)
-      end &&
-      match ty with None => true | Some t => choice_free t end
-  | SDict (Some l) =>
-      forallb (fun x => x) (map (fun e : dentry => match de_schema e with Some t => choice_free t | None => true end) l)
-  | SAny (Some l) => (length l <=? 1)%nat && forallb (fun x => x) (map (fun t => choice_free t) l)
-  | SAlias _ t => choice_free t
-  | SCustom t => choice_free t
-  | _ => true
-  end.
 
 Definition acceptsP (s : schema) : Prop :=
   forall v s', plain v = true -> vwf v = true -> substitute s v = Ok s' -> conforms s v -> conforms s' v.
